@@ -106,6 +106,11 @@ def distribution(progs, results):
 def run_programs(ctx, n_random, targeted, preds, per_shard=40):
     """preds: {name: gallina-expr}.  Returns progs, results, {name: failing indices}, disagreements or None."""
     progs = list(targeted) + progrun.generate(ctx.seed, n_random)
+    rp = vlib.replay_case(ctx)
+    if rp is not None and rp.get("surface_program"):
+        # --replay: only the program of the replay file (evidence is not rewritten)
+        progs = [rp["surface_program"]]
+        ctx.note("replay: the program of " + ctx.replay)
     results = progrun.run_impl(progs)
     harness_fail = [i for i, r in enumerate(results) if r.get("exc") == "HarnessFailure"]
     if harness_fail:
@@ -128,7 +133,7 @@ def tie_model(ctx, progs, results):
 
 
 def replay_payload(prog, result, extra=None):
-    d = dict(case=dict(kind="program", python_source=surface.to_python(prog), tags=prog.get("tags")),
+    d = dict(case=dict(kind="program", python_source=prog.get("text") or surface.to_python(prog), tags=prog.get("tags"), surface_program=prog),
              observed=("accepted" if "ok" in result else result),
              how_to_replay="save python_source as prog.py; cd / && PYTHONPATH=<repo> /venv/bin/python /verif/tools/run_one.py prog.py")
     if "ok" in result:
